@@ -80,6 +80,8 @@ STRINGS_PER_BLOCK = 20
 def run(ctx):
     obs = ctx.obs
     obs.extra['meta'] = META
+    from ..model.grids import set_wide_longitudes
+    set_wide_longitudes(True)      # also datasets in the 0..360 convention / straddling 180 degrees
     for case, rng in ctx.cases(ctx.n(250, 10000), stream='grammar'):
         spec = {'case': case, 'part': 'grammar'}
         ctx.run_case(spec, grammar_block, obs, rng, spec)
